@@ -6,7 +6,7 @@ import itertools
 from ..driver import Clause, Outcome
 from ..langgen import lang_classes
 from ..modelgen import lang_and_model, build_language, build_model, corelang_models, shipped_spec
-from ..ref_eval import AbstractModel, evaluate
+from ..ref_eval import AbstractModel, evaluate, exact_results, acceptable, has_difference
 from ..ref_lang import Lang, expr_ops
 from .. import tinylang
 
@@ -210,8 +210,6 @@ def _localize(lg, model, objs, am, e, S):
         r = _localize(lg, model, objs, am, se, set(sS))
         if r:
             return r
-    ps = evaluate(am, frozenset(S), e, per_source=True)
-    ws = evaluate(am, frozenset(S), e, per_source=False)
     try:
         with _Guard(len(objs)):
             got, _ = ev(lg, model, [objs[i] for i in sorted(S)], e)
@@ -221,7 +219,7 @@ def _localize(lg, model, objs, am, e, S):
         return f'op={t}:nontermination'
     except Exception as ex:
         return f'op={t}:raises-{type(ex).__name__}'
-    if _within(gs, ps[:2]) or _within(gs, ws[:2]):
+    if acceptable(am, frozenset(S), e, gs):
         return None
     q = ''
     if t in ('union', 'intersection', 'difference'):
@@ -252,7 +250,12 @@ def check_case(case) -> Outcome:
     for i, a in enumerate(mdesc['assets']):
         for sname, sdef in L.fold(a['type']).items():
             lo_ps, up_ps, lo_ws, up_ws = set(), set(), set(), set()
+            cands = [set(), set(), set(), set()]
+            nodiff = True
             for e in (sdef['reaches']['stepExpressions'] if sdef['reaches'] else []):
+                for k, (res, nm) in enumerate(exact_results(am, frozenset([i]), e)):
+                    cands[k] |= {(x, nm) for x in res}
+                nodiff = nodiff and not has_difference(L, e)
                 ops = _expand_ops(L, e)
                 before = set(am.events)
                 am.events.clear()
@@ -271,7 +274,10 @@ def check_case(case) -> Outcome:
                 up_ps |= {(x, n) for x in u}
                 lo_ws |= {(x, n) for x in l2}
                 up_ws |= {(x, n) for x in u2}
-            expected[(i, sname)] = ((lo_ps, up_ps), (lo_ws, up_ws))
+            # accepted: the exact result under one consistent reading (compositional | whole-set) x (X* =
+            # closure+ | closure*), or - when no difference operator is involved, so that everything is monotone
+            # in the transitive result - anything between the closure+ and the closure* result
+            expected[(i, sname)] = ((lo_ps, up_ps), (lo_ws, up_ws), cands, nodiff)
     out.classes += sorted(am.events)
     if any(set(ln['left']) & set(ln['right']) for ln in mdesc['links']):
         out.classes.append('model:self-link')
@@ -300,7 +306,7 @@ def check_case(case) -> Outcome:
     node_of = {}
     for n in g.nodes:
         node_of[n.full_name] = n
-    for (i, sname), (ps, ws) in expected.items():
+    for (i, sname), (ps, ws, cands, nodiff) in expected.items():
         fn = f'{names[i]}:{sname}'
         node = g.get_node_by_full_name(fn)
         if node is None:
@@ -314,7 +320,7 @@ def check_case(case) -> Outcome:
                 bad = True
                 continue
             got.add((name_to_idx[an], c.name))
-        if bad or not (_within(got, ps) or _within(got, ws)):
+        if bad or not (any(got == c for c in cands) or (nodiff and (_within(got, ps) or _within(got, ws)))):
             sdef = L.fold(mdesc['assets'][i]['type'])[sname]
             frag = None
             for e in (sdef['reaches']['stepExpressions'] if sdef['reaches'] else []):
@@ -322,7 +328,7 @@ def check_case(case) -> Outcome:
                 if frag:
                     break
             out.add('children:' + (frag or 'edges'),
-                    f'{fn}: children {sorted(got)} not in [{sorted(ps[0])} .. {sorted(ps[1])}]')
+                    f'{fn}: children {sorted(got)} not among the accepted readings {[sorted(c) for c in cands]}'[:600])
     # converse
     ch = set()
     pa = set()
